@@ -18,6 +18,7 @@
  * of the source tree.
  */
 #include "log_impl.h"
+#include "verif_hook.h"
 
 #include <sys/time.h>
 #include <sys/syscall.h>
@@ -63,6 +64,7 @@ bool CantDispatch()
 
 void Dispatch(const LogContent &content)
 {
+    CPP_TBOX_VERIF_POINT("log.dispatch.enter", content.level, 0);
     std::lock_guard<std::mutex> lg(_lock);
     for (const auto &item : _output_channels) {
         if (item.func)
